@@ -718,13 +718,22 @@ def run(tier, seed):
         "P_C13.Allowed; the real Overrides::override_keys is called on every exported (table, list) and compared with L1 "
         "(edges_replayed_on_impl); results of the real function on tables over all 8 modifiers (every modifier subset for "
         "single overrides, random tables, half built by the real parser) are judged by TLC with the P_C13 relation; "
-        "defoverrides configurations are driven through the real stepper with every press/release history of n events "
-        "over {lsft, lctl, a, b} plus random histories, with override-release-on-activation on and off, and the traces "
-        "are validated by TLC against the P_C13 monitor.  distinct_nontrivial = distinct TLC states.",
+        "defoverrides configurations (keys mapped to themselves, remapped j k -> a b, swapped a b -> b a; "
+        "override-release-on-activation on and off) are explored by TLC as L1 || P_C13 monitor (remapped layouts with OS "
+        "repeat events as an environment action), every model transition replayed on the real code; they are driven "
+        "through the real ticking stepper and through the blocking stepper (no tick is executed after a tick whose "
+        "can_block_update_idle_waiting was true until the next input, as in the processing loop) with every press / "
+        "release / repeat history of n events over the four physical keys plus random histories, and the traces are "
+        "validated by TLC against the P_C13 monitor: O1-O4 substitution and release, O5 at every may-block point "
+        "(cb = true) the OS key set is already final, R1/R2 an OS repeat is forwarded for the key the OS sees in place of "
+        "the held key.  distinct_nontrivial = distinct TLC states.",
         assumptions=["P_C13 written from the statement and docs/config.adoc; ties between equally long overrides and "
                      "lists where the key precedes its modifiers are deliberately soft (either documented reading accepted)",
                      "active-key lists without repeated keys in the exhaustive part",
-                     "pipeline monitor: keys mapped to themselves; a substituted key may be dropped by kanata afterwards",
+                     "pipeline monitor: plain keys (identity or an injective remap); a substituted key may be dropped by kanata "
+                     "afterwards; repeats are judged only when every input is processed and nothing is owed (completeness R2 only "
+                     "in the state left by a sharp tick); which of several eligible keys repeats is left to C14",
+                     "blocking stepper: a blocked wake-up is `input; tick`",
                      "deterministic stepper; dev-profile build of the working tree"],
         extra_cov={"levels": levels, "exhaustive": True, "model_mutants_rejected": mutants,
                    "real_results_judged": vstats,
